@@ -47,11 +47,16 @@ SPLINE_SY = {
     # every knot value is within [0.01, 1] but the cubic dips below zero
     # between 18 and 24 mm: the simulated recession curve is not monotone
     'overshoot': ([12.0, 18.0, 24.0, 30.0], [0.9, 0.01, 0.01, 0.9]),
+    # ten or more knots: placeholder names reach two digits
+    'twelve-knots': ([-60.0 + 10.0 * i for i in range(12)],
+                     [0.11 + 0.05 * i + 0.02 * (i % 3) for i in range(12)]),
 }
 SPLINE_T = {
     'field': ([-291.7, -5.167, 168.3, 1000.0],
               [5.356e-3, 1.002, 6577.0, 8.430e+3], 7.442),
     'two-knots': ([-100.0, 100.0], [0.01, 50.0], 1.5),
+    'eleven-knots': ([-80.0 + 20.0 * i for i in range(11)],
+                     [0.01 * 2.0 ** i for i in range(11)], 0.75),
     'long-digits': ([-291.7123456, -5.1671875, 168.3, 1000.0],
                     [5.3561234e-3, 1.0020001, 6577.0, 8.4301234e+3],
                     7.4421234),
@@ -120,6 +125,7 @@ def dataset_bytes(which, curvature=None):
 
 
 def materialise(which, curvature=None, name='sim'):
+    # (name distinguishes files that live at the same time)
     path = os.path.join(cs.tmpdir(), '%s-%d.sqlite3' % (name, os.getpid()))
     with open(path, 'wb') as f:
         f.write(dataset_bytes(which, curvature))
